@@ -292,9 +292,10 @@ func isObjectItemTerminatingRune(r rune) bool {
 
 // isNamespacedFunctionNameRune returns true if the given run
 // is a valid character of a namespaced function name.
-// This includes letters, digits, dashes, underscores, and colons.
+// This includes letters (with their combining marks, which HCL identifiers
+// may contain), digits, dashes, underscores, and colons.
 func isNamespacedFunctionNameRune(r rune) bool {
-	return unicode.IsLetter(r) || unicode.IsDigit(r) || r == '-' || r == '_' || r == ':'
+	return unicode.IsLetter(r) || unicode.IsMark(r) || unicode.IsDigit(r) || r == '-' || r == '_' || r == ':'
 }
 
 // rawObjectKey extracts raw key (as string) from KeyExpr of
